@@ -44,7 +44,7 @@ type TLCResult struct {
 
 var (
 	reStates   = regexp.MustCompile(`(\d+) states generated, (\d+) distinct states found`)
-	reInv      = regexp.MustCompile(`Error: Invariant (\S+) is violated`)
+	reInv      = regexp.MustCompile(`Error: (?:Invariant (\S+) is violated|The invariant of (\S+) is equal to FALSE)`)
 	reProp     = regexp.MustCompile(`Error: (?:Action|Temporal) propert(?:y|ies) (\S*)`)
 	tlcCounter atomic.Int64
 )
@@ -125,7 +125,8 @@ func (r *Run) TLC(o TLCOpts) (*TLCResult, error) {
 		res.Status = "timeout"
 	case reInv.MatchString(res.Out):
 		res.Status = "invariant"
-		res.Violated = reInv.FindStringSubmatch(res.Out)[1]
+		m := reInv.FindStringSubmatch(res.Out)
+		res.Violated = m[1] + m[2]
 	case strings.Contains(res.Out, "Error: Deadlock reached"):
 		res.Status = "deadlock"
 	case strings.Contains(res.Out, "Temporal properties were violated") || strings.Contains(res.Out, "Error: Action property"):
